@@ -77,7 +77,9 @@ def features(case):
     return sorted(set(f))
 
 
-def compare_vectors(got, want, scale, clause_prefix, tol_rel=1e-10):
+def compare_vectors(got, want, scale, clause_prefix, tol_rel=1e-10, cond=1.0):
+    # both sides solve least-squares problems of condition number <= cond: rounding of order eps*cond is unavoidable
+    tol_rel = tol_rel + 100 * np.finfo(float).eps * cond
     check(got.shape == want.shape, f"{clause_prefix}.length", lambda: f"len(objective)={got.size} reference={want.size} (every data point once + one entry per penalty)")
     tol = tol_rel * scale
     sg, sw = np.sort(got), np.sort(want)
@@ -115,12 +117,13 @@ def prop(case):
             with expect_ok("objective.call"):
                 got = cap(x)
             dscale = max(np.abs(r["vector"]).max() if r["vector"].size else 0.0, 1.0)
-            ordered_all &= compare_vectors(got, r["vector"], dscale, "objective")
+            ordered_all &= compare_vectors(got, r["vector"], dscale, "objective", cond=r["max_cond"])
         # "for every scheme": also when the same scheme object is used again (a second optimizer on the caller's scheme)
         with expect_ok("objective.second_use_setup"):
             cap_again = capture.open_objective(scheme)
             got = cap_again(cap_again.x0)
-        compare_vectors(got, refs[0]["vector"], max(np.abs(refs[0]["vector"]).max() if refs[0]["vector"].size else 0.0, 1.0), "objective.second_use_of_scheme")
+        compare_vectors(got, refs[0]["vector"], max(np.abs(refs[0]["vector"]).max() if refs[0]["vector"].size else 0.0, 1.0), "objective.second_use_of_scheme",
+                        cond=refs[0]["max_cond"])
     f = features(case)
     tags = list(f) + (["entrywise_order_matches"] if ordered_all else ["entrywise_order_differs"])
     return {"nontrivial": len([x for x in f if x not in ("two_groups", "nnls")]) >= 2, "tags": tags}
@@ -184,6 +187,7 @@ PROPERTY = Property(
     ],
     assumptions=[
         "reference objective (vlib/oracle/refobjective.py) trusted; numpy lstsq + exhaustive active-set NNLS",
-        "comparison as sorted multiset + length, tolerance 1e-10*max(1,|objective|_inf); entrywise order reported as a tag",
+        "comparison as sorted multiset + length, tolerance (1e-10 + 100 eps cond)*max(1,|objective|_inf) with cond the largest per-index condition "
+        "number (<= 1e6) - a thorough run met 1.26e-10 on a full-model problem; entrywise order reported as a tag",
     ],
 )
